@@ -1,4 +1,213 @@
-From Coq Require Import ZArith List.
-From MT Require Import Init.EnvModel Init.CpuListModel Init.InitProtoModel.
-Theorem C15_placeholder : True.
-Proof. exact I. Qed.
+(** C15 — initialisation, worker count, finalisation, configuration parsing.
+    Statements only; every proof is [exact] of a lemma of Init/*Proofs.v. *)
+From Coq Require Import ZArith List Bool.
+From MT Require Import Lib.Interleave Init.EnvModel Init.EnvProofs Init.CpuListModel Init.CpuListProofs
+     Init.InitProtoModel Init.InitProtoProofs Init.InitEpochProofs.
+Import ListNotations.
+Local Open Scope Z_scope.
+
+(** ** worker count and ranks *)
+
+(** The attributes the real initialisation uses: the caller's attribute if given, else the
+    library's own attribute if already initialised, else the environment - MYTH_NUM_WORKERS
+    (or the old MYTH_WORKER_NUM) if atoi of it is positive, else the CPU count.  The workers
+    get exactly the ranks 0 .. n_workers-1, each once. *)
+Theorem C15_workers : forall d ncpu ev attr g, 0 < ncpu < 2147483648 ->
+  let a := effective_attr d ncpu ev attr g in
+  ga_nw a = match attr with
+            | Some a' => ga_nw a'
+            | None => if ga_init g =? 0
+                      then (if 0 <? requested_nw (e_num_workers ev) (e_worker_num ev)
+                            then requested_nw (e_num_workers ev) (e_worker_num ev) else ncpu)
+                      else ga_nw g
+            end /\
+  (attr = None -> ga_init g = 0 -> 0 < ga_nw a < 2147483648) /\
+  (0 < ga_nw a ->
+   (forall r, In r (worker_ranks (ga_nw a)) <-> 0 <= r < ga_nw a) /\
+   NoDup (worker_ranks (ga_nw a)) /\
+   Z.of_nat (length (worker_ranks (ga_nw a))) = ga_nw a).
+Proof. exact workers_spec. Qed.
+Print Assumptions C15_workers.
+
+(** ** the environment defaults, for EVERY byte string in every variable *)
+Theorem C15_env_total : forall d ncpu ev, good_defaults d -> 0 < ncpu < 2147483648 ->
+  let a := globalattr_init d ncpu ev in
+  (0 < ga_stack a < 18446744073709551616 /\
+   ga_stack a = (if 0 <? env_int (e_stksize ev) then env_int (e_stksize ev) else d_stack d) /\
+   (ga_stack a < 2147483648 \/ ga_stack a = d_stack d)) /\
+  (0 < ga_nw a < 2147483648 /\
+   ga_nw a = (if 0 <? requested_nw (e_num_workers ev) (e_worker_num ev)
+              then requested_nw (e_num_workers ev) (e_worker_num ev) else ncpu)) /\
+  (0 < ga_guard a < 18446744073709551616 /\
+   (env_int (e_guardsize ev) = 0 -> ga_guard a = d_guard d) /\
+   (0 < env_int (e_guardsize ev) -> ga_guard a = env_int (e_guardsize ev))) /\
+  (ga_bind a = match e_bind ev with Some s => atoi s | None => to_int (d_bind d) end /\
+   ga_cf a = match e_child_first ev with Some s => atoi s | None => to_int (d_cf d) end /\
+   ga_init a = 1) /\
+  (env_has_number (e_stksize ev) = false -> ga_stack a = d_stack d) /\
+  (env_has_number (e_guardsize ev) = false -> ga_guard a = d_guard d) /\
+  (env_has_number (e_num_workers ev) = false -> env_has_number (e_worker_num ev) = false -> ga_nw a = ncpu) /\
+  (forall s, e_bind ev = Some s -> has_number s = false -> binds a = false).
+Proof. exact env_total. Qed.
+Print Assumptions C15_env_total.
+
+(** what [atoi] means on a numeral (blanks, optional sign, digits, anything): the decimal
+    value, saturated to a 64-bit long, truncated to int *)
+Theorem C15_atoi_numeral : forall ws sg neg ds rest,
+  forallb is_space ws = true ->
+  (sg = [] /\ neg = false) \/ (sg = [43] /\ neg = false) \/ (sg = [45] /\ neg = true) ->
+  forallb is_digit ds = true -> ds <> [] ->
+  match rest with c :: _ => is_digit c | [] => false end = false ->
+  atoi (ws ++ sg ++ ds ++ rest) = to_int (saturate neg (dec_value ds)).
+Proof. exact atoi_numeral. Qed.
+Print Assumptions C15_atoi_numeral.
+
+(** the stack-size function as it was before commit 210245e: "-1" gives 2^64-1 bytes; the
+    repaired function gives the default *)
+Theorem C15_stksize_prefix_refuted :
+  exists s, has_number s = true /\ atoi s < 0 /\
+            default_stacksize_prefix 131072 (Some s) = 18446744073709551615 /\
+            default_stacksize 131072 (Some s) = 131072.
+Proof. exact stksize_prefix_refuted. Qed.
+Print Assumptions C15_stksize_prefix_refuted.
+
+(** ** the CPU-list parser *)
+
+(** for EVERY byte string and capacity: termination within the fuel, a list that fits the
+    capacity or a diagnostic whose positions lie inside the string; never an assertion failure *)
+Theorem C15_cpulist_total : forall s n,
+  match parse_cpu_list (Some s) n with
+  | Val l => Z.of_nat (length l) <= Z.max 0 n
+  | Err d => 0 <= d_ok d <= d_i d /\ d_i d <= Z.of_nat (length s)
+  | AssertFail => False
+  | OutOfFuel => False
+  end.
+Proof. exact cpulist_total. Qed.
+Print Assumptions C15_cpulist_total.
+
+(** acceptance implies the grammar  range (, range)*  followed by the end of the C string *)
+Theorem C15_cpulist_sound : forall s n l, parse_cpu_list (Some s) n = Val l ->
+  exists t rs rest, list_text t rs /\ s = t ++ rest /\ end_hd rest.
+Proof. exact cpulist_sound. Qed.
+Print Assumptions C15_cpulist_sound.
+
+(** a string of the grammar whose numbers do not overflow an int: the result is the
+    concatenation of the expansions a, a+c, a+2c, ... (below b) of its ranges, or the
+    "too many" diagnostic exactly when that does not fit the capacity *)
+Theorem C15_cpulist_complete : forall t rs rest n,
+  list_text t rs -> Forall guard3 rs -> end_hd rest ->
+  match parse_cpu_list (Some (t ++ rest)) n with
+  | Val l => exists ls, Forall2 is_expansion rs ls /\ l = concat ls
+  | Err d => d_msg d = TooMany /\ forall ls, Forall2 is_expansion rs ls -> n < Z.of_nat (length (concat ls))
+  | AssertFail => False
+  | OutOfFuel => False
+  end.
+Proof. exact cpulist_complete. Qed.
+Print Assumptions C15_cpulist_complete.
+
+(** the expansion of a range is unique, and a zero stride over a non-empty interval has none
+    (so such a list always ends in "too many") *)
+Theorem C15_expansion_unique : forall r l l', (let '(_, _, c) := r in 0 <= c) ->
+  is_expansion r l -> is_expansion r l' -> l = l'.
+Proof. exact is_expansion_unique. Qed.
+Print Assumptions C15_expansion_unique.
+
+Theorem C15_stride_zero : forall a b l, a < b -> ~ is_expansion (a, b, 0) l.
+Proof. exact stride_zero_no_expansion. Qed.
+Print Assumptions C15_stride_zero.
+
+(** the parser before commit a5dd2b3 fails its assertion on "0\n"; the current one reports junk *)
+Theorem C15_cpulist_prefix_refuted :
+  exists s, parse_cpu_list_prefix (Some s) 1024 = AssertFail /\
+            exists d, parse_cpu_list (Some s) 1024 = Err d /\ d_msg d = Junk.
+Proof. exact cpulist_prefix_refuted. Qed.
+Print Assumptions C15_cpulist_prefix_refuted.
+
+(** whatever MYTH_CPU_LIST holds: a worker is left unbound or bound to a CPU of the affinity mask *)
+Theorem C15_bind_total : forall e n ncpu aff rank,
+  let tbl := available_cpus (parse_cpu_list e n) ncpu aff in
+  worker_cpu tbl rank = -1 \/ aff (worker_cpu tbl rank) = true.
+Proof. exact bind_total. Qed.
+Print Assumptions C15_bind_total.
+
+(** ** initialise once / finalise, any number of callers, any schedule *)
+Theorem C15_init_once : forall n s, reachable (initial n) step s ->
+  (n_fini s <= n_really s <= S (n_fini s))%nat /\
+  (n_really s <= n_cas s <= S (n_really s))%nat /\
+  (forall i j ti tj, nth_error (threads s) i = Some ti -> nth_error (threads s) j = Some tj ->
+                     initialiser ti = true -> initialiser tj = true -> i = j) /\
+  (forall i t r, nth_error (threads s) i = Some t -> t_pc t = DoneI r ->
+                 r = 1 /\ st s = 2 /\ n_really s = S (n_fini s) /\ gnw s = Some (nworkers s) /\
+                 flags s = start_flags (nworkers s) /\ no_fini s = true) /\
+  (forall i t r, nth_error (threads s) i = Some t -> t_pc t = DoneF r ->
+                 st s = 0 /\ n_really s = n_fini s /\ nworkers s = 0) /\
+  (st s = 0 -> n_cas s = n_really s /\ n_really s = n_fini s /\ nworkers s = 0).
+Proof. exact init_once. Qed.
+Print Assumptions C15_init_once.
+
+(** after finalisation (state uninit) a new epoch can start with a different worker count *)
+Theorem C15_new_epoch : forall s i t a d,
+  st s = 0 -> nth_error (threads s) i = Some t -> t_pc t = Idle -> no_fini s = true ->
+  let s' := run step [(i, Call (OpInit (Some a) d)); (i, Tick); (i, Tick); (i, Tick); (i, Tick)] s in
+  st s' = 2 /\ nworkers s' = a /\ gnw s' = Some a /\ flags s' = start_flags a /\
+  n_really s' = S (n_really s) /\ n_fini s' = n_fini s /\ result s' i = Some 1 /\ rank_of s' i = 0.
+Proof. exact new_epoch. Qed.
+Print Assumptions C15_new_epoch.
+
+(** PARTIAL.  Full statement: a finalisation issued while the main thread runs on any worker
+    terminates, with the main thread back on worker 0, every exit flag raised and all worker OS
+    threads stopped.  Proved: when the migration loop exits the caller is on worker 0; after
+    myth_notify_workers_exit every other worker's flag is 1; nothing is torn down before.
+    Missing: that the loop exits (needs fairness of the schedule's choice of the worker that
+    resumes the caller) and that the worker OS threads then stop (the scheduler loop and
+    pthread_join are outside the model). *)
+Theorem C15_fini_on_worker0_partial : forall n s, reachable (initial n) step s ->
+  forall i t, nth_error (threads s) i = Some t ->
+  (t_pc t = FFlags \/ t_pc t = FJoin -> t_rank t = Some 0) /\
+  (t_pc t = FJoin -> st s = 2 /\ flags s = (-1) :: repeat 1 (Z.to_nat (nworkers s - 1))) /\
+  (t_pc t = FMigrate \/ t_pc t = FFlags -> st s = 2 /\ flags s = start_flags (nworkers s) /\ n_really s = S (n_fini s)).
+Proof. exact fini_on_worker0_partial. Qed.
+Print Assumptions C15_fini_on_worker0_partial.
+
+(** with the CAS replaced by a test followed by a store, two callers both initialise *)
+Theorem C15_test_then_set_refuted : exists sched, ts_really (run_ts sched (ts_init 2)) = 2%nat.
+Proof. exact test_then_set_refuted. Qed.
+Print Assumptions C15_test_then_set_refuted.
+
+(** ** non-vacuity *)
+Example C15_env_example :
+  let d := {| d_stack := 131072; d_guard := 4096; d_bind := 1; d_cf := 1 |} in
+  let ev := {| e_stksize := Some [45; 49]; e_guardsize := None; e_num_workers := Some [32; 43; 51; 120];
+               e_worker_num := None; e_bind := Some [97]; e_child_first := None |} in
+  good_defaults d /\
+  globalattr_init d 16 ev = {| ga_stack := 131072; ga_guard := 4096; ga_nw := 3; ga_bind := 0; ga_cf := 1; ga_init := 1 |}.
+Proof. split; [constructor; cbn; split; reflexivity|vm_compute; reflexivity]. Qed.
+
+(** "0-3,7,10-20:5" and "0-4:0" *)
+Example C15_cpulist_example :
+  parse_cpu_list (Some [48;45;51;44;55;44;49;48;45;50;48;58;53]) 1024 = Val [0;1;2;7;10;15] /\
+  (exists d, parse_cpu_list (Some [48;45;52;58;48]) 1024 = Err d /\ d_msg d = TooMany) /\
+  list_text [48;45;51;44;55] [(0, 3, 1); (7, 8, 1)] /\
+  is_expansion (10, 20, 5) [10; 15].
+Proof.
+  split; [vm_compute; reflexivity|]. split; [eexists; split; [vm_compute; reflexivity|reflexivity]|]. split.
+  - exists [48;45;51], (0, 3, 1), [44;55], [(7, 8, 1)]. repeat split.
+    + apply (RT_range [48] [51]); split; try discriminate; reflexivity.
+    + apply (TT_cons [55] (7, 8, 1) [] []); [|constructor]. apply (RT_single [55]). split; try discriminate; reflexivity.
+  - cbn. split; [reflexivity|]. split; [intros x [<-|[<-|[]]]; reflexivity|discriminate].
+Qed.
+
+(** three callers race for the first use; one initialises with 4 workers, all return 1;
+    then the winner finalises after having migrated to worker 2 *)
+Example C15_proto_example :
+  let sched := [(0%nat, Call (OpInit (Some 4) 8)); (1%nat, Call (OpInit None 8)); (2%nat, Call (OpInit None 8));
+                (0%nat, Tick); (1%nat, Tick); (2%nat, Tick); (1%nat, Tick); (0%nat, Tick); (2%nat, Tick);
+                (1%nat, Tick); (1%nat, Tick); (0%nat, Tick); (2%nat, Tick); (1%nat, Tick); (0%nat, Tick); (2%nat, Tick)] in
+  let s := run step sched (init_state 3) in
+  (st s, nworkers s, n_cas s, n_really s, map (result s) [0%nat; 1%nat; 2%nat], rank_of s 1) =
+  (2, 8, 1%nat, 1%nat, [Some 1; Some 1; Some 1], 0) /\
+  let s2 := run step [(0%nat, Ret); (1%nat, Ret); (2%nat, Ret); (1%nat, Call (OpMove 2)); (1%nat, Ret);
+                      (1%nat, Call OpFini); (1%nat, Tick); (1%nat, Tick); (1%nat, Mig 5); (1%nat, Mig 0);
+                      (1%nat, Tick); (1%nat, Tick)] s in
+  (result s2 1, rank_of s2 1, flags s2) = (None, 0, [-1; 1; 1; 1; 1; 1; 1; 1]).
+Proof. vm_compute. split; reflexivity. Qed.
